@@ -175,6 +175,8 @@ def parse(
                     # that is, there is only a body - no arity
                     arity = "default"
                 else:
+                    if branches[0][0].name != lexer.TokenType.NUMBER:
+                        raise ValueError("Arity must be a number literal")
                     try:
                         arity = int(branches[0][0].value)
                     except ValueError as ve:
